@@ -55,7 +55,18 @@ C16Build(e) ==
       unclear == {e.vs[k].v : k \in DOMAIN e.vs} \ (sure \cup clear)
       noLimit == e.opts.limit \in {"pi", "inf"}
       usedSeq == SelectSeq(fr.internal, LAMBDA i : i \in Used(e))
+      \* the directions that enter the rule are the interfaces' unit tangents at the junction - those of BORDER interfaces too,
+      \* which no coefficient of the force system shows (C02 judges the internal ones). Ends hit by a known tangent defect
+      \* (reported by C02) and interfaces that match no single arc / segment of the truth are not judged.
+      dirBad == {ki \in UNION {{<<k, i>> : i \in DOMAIN e.vs[k].d} : k \in DOMAIN e.vs} :
+                   LET v == e.vs[ki[1]].v  d == e.vs[ki[1]].d[ki[2]]  en == e.vs[ki[1]].ends[ki[2]]
+                       q == IF en[1] = 0 \/ en[2] = 0 \/ en[1] = en[2] THEN 0 ELSE PhysOf(env, <<en[1], en[2]>>)
+                   IN /\ q # 0 /\ en[3] = env.E[q].npts
+                      /\ ~(KF_TwoPointIfc(env, q) \/ KF_SignForcedEnd(env, q, v) \/ KF_FarFromOrigin(env, e.opts.fit)
+                            \/ KF_LineFitPerpEnd(env, q, v, d))
+                      /\ ~(Close(d[1], TrueTan(env, q, v)[1], TolTangent) /\ Close(d[2], TrueTan(env, q, v)[2], TolTangent))}
   IN [fails |-> SetIf(~(sure \subseteq dels), "C16.delete_missing")
+                \cup SetIf(EnvTangentsOK(env) /\ dirBad # {}, "C16.directions")
                 \cup SetIf(dels \cap clear # {}, "C16.delete_extra")
                 \cup SetIf(f.cols # usedSeq, "C16.columns_order")
                 \cup SetIf(noLimit /\ unclear = {} /\ (dels # {} \/ Len(f.cols) # Cardinality(InternalIdx(m, fr))), "C16.default_excludes"),
